@@ -27,7 +27,7 @@ Print Assumptions C08_reference_hook_independent.
 Theorem C08_instrumented_hook_independent :
   forall (D : data) (analyses : list (analysis (Sem.earg (d_val D)))) (modpath : String.string)
          (H1 H2 : list String.string) (h : String.string) (p : program) (fuel : nat) (s : state D),
-    observing_analyses D analyses -> pure_truth D -> list_building_pure D ->
+    observing_analyses D analyses -> pure_truth D -> unbound_reads_uniform D -> list_building_pure D ->
     construct_hook h = true -> Base.Util.mem_str h H1 = true -> Base.Util.mem_str h H2 = true ->
     src_prog p = true -> ok_prog H1 p = true -> ok_prog H2 p = true -> g8_prog H1 H2 p = true ->
     deliveries_to D h (inst_run D analyses modpath H1 fuel p s) = deliveries_to D h (inst_run D analyses modpath H2 fuel p s).
